@@ -4,6 +4,11 @@
  * initial stub (set up by hand exactly as spsc_fifo_init does, but taken from
  * the static array instead of calloc so that it has a name).
  * ops: (1, n*1000+v) push node n carrying data v      (2, _) trypop
+ *      (3, v) take the node most recently handed back by the consumer and
+ *             push it carrying data v (one explicit scheduling point, then the
+ *             decision; returns 0 without pushing if no node is free)
+ * Every node returned by trypop is handed back through a free stack in plain
+ * (unregistered) harness memory; a recycled node keeps its stale next pointer.
  * The write of node->data before a push and the read of the returned node's
  * data after a pop are harness accesses to registered memory: they are
  * scheduling points and trace lines like any other access. */
@@ -15,6 +20,8 @@ static spsc_node_t nodes[NN];
 static spsc_fifo_t fifo;
 static hcase_t* cur;
 static volatile long sink;
+static spsc_node_t* freestk[NN + 64 * RT_MAX_THREADS];
+static int nfree;
 
 static void body(int t) {
   for (int k = 0; k < cur->nops[t]; k++) {
@@ -24,10 +31,21 @@ static void body(int t) {
       n->data = (void*)(uintptr_t)(a % 1000);
       spsc_fifo_push(&fifo, n);
       rt_event(k + 1, K_RET, a / 1000);
+    } else if (opc == 3) {
+      rt_point(0, K_RELAX, 0);
+      if (nfree == 0) {
+        rt_event(k + 1, K_RET, 0);
+      } else {
+        spsc_node_t* n = freestk[--nfree];
+        n->data = (void*)(uintptr_t)a;
+        spsc_fifo_push(&fifo, n);
+        rt_event(k + 1, K_RET, rt_canon((uint64_t)(uintptr_t)n));
+      }
     } else {
       spsc_node_t* r = spsc_fifo_trypop(&fifo);
       if (r) {
         sink = (long)(uintptr_t)r->data; /* the consumer uses the item */
+        freestk[nfree++] = r;
         rt_event(k + 1, K_RET, rt_canon((uint64_t)(uintptr_t)r));
       } else {
         rt_event(k + 1, K_RET, 0);
@@ -46,6 +64,7 @@ static void h_run_case(hcase_t* c) {
         if (n < 1 || n > NN) { printf("-1\n"); return; }
       }
   memset(nodes, 0, sizeof nodes);
+  nfree = 0;
   /* spsc_fifo_init: tail = zeroed stub; head = tail */
   fifo.tail = &nodes[0];
   fifo.head = &nodes[0];
